@@ -18,7 +18,7 @@ Fixpoint assoc {A} (tbl : list (bytes * A)) (k : bytes) : option A :=
   end.
 
 (* the library results observed in this run, as oracle functions *)
-Definition orc_of (ft : list (bytes * (N * N))) (tmt : list (bytes * (Z * Z))) (dt : list (bytes * bytes)) : oracles :=
+Definition orc_of (ft : list (bytes * (N * N))) (tmt : list (bytes * (Z * Z))) (dt : list (bytes * (bytes * Z))) : oracles :=
   mkOracles (assoc ft) (assoc tmt) (assoc dt).
 
 Inductive deccase :=
@@ -26,7 +26,7 @@ Inductive deccase :=
 | CLex (doc : bytes) (toks : list token) (more_at_end : bool)
 (* Codec.JSONToProto(doc, fresh message of type root) *)
 | CDec (e : env) (root : bytes) (doc : bytes)
-       (ft : list (bytes * (N * N))) (tmt : list (bytes * (Z * Z))) (dt : list (bytes * bytes))
+       (ft : list (bytes * (N * N))) (tmt : list (bytes * (Z * Z))) (dt : list (bytes * (bytes * Z)))
        (obs : dec_obs).
 
 Definition obs_matches (o : outcome msg) (obs : dec_obs) : bool :=
